@@ -1,7 +1,7 @@
 """C17 - storage statistics calls report the true structure (sibling agreement; thin by nature)."""
 import re
 from .model import short, const_val
-from .roles import Roles, INNER, KEYFILE, VALFILE, M_KEY, M_VAL
+from .roles import free_head_components, Roles, INNER, KEYFILE, VALFILE, M_KEY, M_VAL
 from .util import ret_agg_blocks, where, origins, calls_to, leaf_origins, in_cycle, find_bool_split, region_dominated, tracer, is_call_to, field_stores
 from .fields import dot, fq
 from . import flushpath as fp, k7
@@ -196,7 +196,7 @@ def _check_own(ctx):
         a = origins(prog, fc, hr[0][1]["args"][1], at=hr[0][0])
         ok = bool(a) and all(x.kind == "param" and x.data == 2 for x in a)
         cur = origins(prog, fc, sn[0][1]["args"][1], at=sn[0][0])
-        ok = ok and bool(cur) and all(is_call_to(prog, fc, x, R.need("FREE_HEAD_READ")) or (is_call_to(prog, fc, x, R.need("FREE_SIZE_NEXT")) and x.proj[-1] == "f:1") for x in cur)
+        ok = ok and bool(cur) and all(is_call_to(prog, fc, x, R.need("FREE_HEAD_READ")) or (is_call_to(prog, fc, x, R.need("FREE_SIZE_NEXT")) and x.proj[-1] == free_head_components(prog, R)[1]) for x in cur)
         ok = ok and any(is_call_to(prog, fc, x, R.need("FREE_HEAD_READ")) for x in cur) and any(is_call_to(prog, fc, x, R.need("FREE_SIZE_NEXT")) for x in cur)
     ctx.check(ok, "free-count", "walk", "the free-list counter does not walk head -> next -> ... of the list selected by its size argument", where=where(fc))
     # one increment per hop
